@@ -62,12 +62,18 @@ def cls_pattern(kind, nd):
     return None if kind == "plain" else [1] * nd if kind == "sub" else [i % 2 for i in range(nd)]
 
 
-def chain_ops(shape, fail, n, cls="plain"):
+def chain_ops(shape, fail, n, cls="plain", selfadd=False):
     """Deferreds 0..n; Deferred i's callback (errback when failing) returns Deferred i+1;
     cls: all plain Deferreds / all instances of a trivial subclass / alternating"""
     link = (lambda i: ["add", i, None, ["ret", ["D", i + 1]]]) if fail else (lambda i: ["add", i, ["ret", ["D", i + 1]], None])
     fire = (lambda i: ["eb", i, 1]) if fail else (lambda i: ["cb", i, 1])
     ops = [link(i) for i in range(n)]
+    if selfadd:
+        # every link also carries a later callback that, while it runs, adds a pass-through callback to ITS OWN
+        # Deferred (re-entrant add: must only be appended; guard _runningCallbacks on the Deferred whose callback runs)
+        for i in range(n):
+            sc = ["script", [["add", i, ["pass"], ["pass"]]], ["pass"]]
+            ops.append(["add", i, sc, sc])
     if shape == "outer":
         ops += [fire(i) for i in range(n)] + [fire(n)]
     elif shape == "inner":
@@ -125,7 +131,8 @@ def _impl(case) -> str:
         return " ".join(map(str, depths)) + " | " + final
     if kind == "chain":
         n, fail = case["n"], case["fail"]
-        depths, final, r = run_measured(chain_ops(case["shape"], fail, n, case.get("cls", "plain")), light=True)
+        depths, final, r = run_measured(chain_ops(case["shape"], fail, n, case.get("cls", "plain"),
+                                                  bool(case.get("selfadd"))), light=True)
         states = final.split(" ")
         want0 = "T:E1:0:[]" if fail else "T:1:0:[]"
         rest_ok = all(s == "T:N:0:[]" for s in states[1:])
@@ -136,6 +143,10 @@ def _impl(case) -> str:
         return _inline(case)
     if kind == "iprog":
         return _iprog(case)
+    if kind == "rchain":
+        # a short chain whose links re-entrantly add callbacks to themselves: the plain observation (callback calls
+        # with arguments, final states), for the value / order oracle
+        return K.run_program(chain_ops(case["shape"], case["fail"], case["n"], "plain", True))
     raise ValueError(kind)
 
 
@@ -297,7 +308,7 @@ _BASE: dict = {}
 
 def _baseline(case) -> str:
     key = (case["kind"], case.get("shape"), case.get("cls"), case.get("style"), case["fail"], case.get("lazy"),
-           case.get("sub"), bool(case.get("debug")),
+           case.get("sub"), bool(case.get("debug")), bool(case.get("selfadd")),
            __import__("os").environ.get("VERIF_REPO", ""))
     if key not in _BASE:
         _BASE[key] = impl({**case, "n": 10})
@@ -307,7 +318,10 @@ def _baseline(case) -> str:
 def _shape(case):
     if case["kind"] == "chain":
         return f"chain-{case['shape']}-{'failure' if case['fail'] else 'success'}" + (
-            "" if case.get("cls", "plain") == "plain" else "-" + case["cls"] + "class") + ("-debug" if case.get("debug") else "")
+            "" if case.get("cls", "plain") == "plain" else "-" + case["cls"] + "class") + (
+            "-debug" if case.get("debug") else "") + ("-reentrant-self-add" if case.get("selfadd") else "")
+    if case["kind"] == "rchain":
+        return f"chain-{case['shape']}-{'failure' if case['fail'] else 'success'}-reentrant-self-add"
     if case["kind"] == "inline":
         return f"inline-{case['style']}-{'failure' if case['fail'] else 'success'}" + (
             "-after-first-suspension" if case["lazy"] == "first" else "-some-unfired" if case["lazy"] else "") + (
@@ -332,6 +346,15 @@ def oracle(case, obs):
             if states[0] != ("T:E1:0:[]" if fail else "T:1:0:[]") or any(s != "T:N:0:[]" for s in states[1:]):
                 return Failure(case, "the chain did not deliver the innermost result to the outermost Deferred: " + obs[-200:],
                                "wrong-result:chain-" + case["shape"])
+        return None
+    if case["kind"] == "rchain":
+        # value / order: a callback added to a Deferred from inside one of its own callbacks runs after the running one
+        # has returned, with its result (reference interpreter; the guard is on the Deferred whose callback runs:
+        # C01 theorem reentrant_loop_refines_spec over coq/Lib/DeferredKR.v)
+        want = K.reference(chain_ops(case["shape"], case["fail"], case["n"], "plain", True))
+        if obs != want:
+            return Failure(case, f"implementation {obs[:300]} / reference interpreter {want[:300]}",
+                           "reentrant-order:" + shape)
         return None
     if case["kind"] == "iprog":
         depths = [int(x) for x in obs.split(" | ")[0].split(" ") if x]
@@ -366,8 +389,10 @@ def oracle(case, obs):
     if fields["max"] != base["max"]:
         return Failure(case, f"frame depth {fields['max']} with {n} elements but {base['max']} with 10: stack use grows "
                        "with the length", "depth-grows:" + shape)
-    if case["kind"] == "chain" and int(fields["max"]) > 4:
-        return Failure(case, f"frame depth {fields['max']} > 4", "op-depth:" + shape)
+    # (a callback that itself calls addBoth on its Deferred adds addBoth -> _runCallbacks, which returns at once: 6)
+    limit = 6 if case.get("selfadd") else 4
+    if case["kind"] == "chain" and int(fields["max"]) > limit:
+        return Failure(case, f"frame depth {fields['max']} > {limit}", "op-depth:" + shape)
     return None
 
 
@@ -414,6 +439,13 @@ def gen(rng, tier):
             for cls in ("sub", "mixed"):                    # chains of Deferred-subclass instances, >= 3000 links
                 for n in ([3000] if tier == "quick" else [3000, 30000]):
                     cases.append({"kind": "chain", "shape": shape, "fail": fail, "n": n, "cls": cls})
+    # chains whose links re-entrantly add a callback to their own Deferred from inside a callback
+    for shape in ("outer", "inner", "paused-inner"):
+        for fail in (False, True):
+            for n in ([1, 2, 3, 5, 8] if tier == "quick" else list(range(0, 16)) + [30, 60]):
+                cases.append({"kind": "rchain", "shape": shape, "fail": fail, "n": n})
+            for n in ([100, 1000, 3000] if tier == "quick" else [100, 1000, 10000, 100000]):
+                cases.append({"kind": "chain", "shape": shape, "fail": fail, "n": n, "selfadd": True})
     # under Deferred debugging (defer.setDebugging(True)) the stack use must not grow either
     for shape in SHAPES:
         for fail in (False, True):
@@ -472,6 +504,8 @@ def corpus():
         {"kind": "program", "shape": "outer", "fail": False, "n": 4, "program": chain_ops("outer", False, 4)},
         {"kind": "chain", "shape": "outer", "fail": True, "n": 2000},
         {"kind": "chain", "shape": "outer", "fail": False, "n": 3000, "cls": "sub"},        # seeded C02-D scenario
+        {"kind": "chain", "shape": "outer", "fail": False, "n": 2000, "selfadd": True},     # seeded C02-H scenario
+        {"kind": "rchain", "shape": "outer", "fail": False, "n": 4},
         {"kind": "chain", "shape": "inner", "fail": True, "n": 3000, "cls": "mixed"},
         {"kind": "chain", "shape": "paused-inner", "fail": False, "n": 2000},
         {"kind": "inline", "style": "gen", "fail": False, "lazy": 0, "n": 2000},
@@ -495,6 +529,9 @@ def shrink(case):
             yield {**case, "ops": ops[:i] + ops[i + 1:]}
         if aw and not any(o[0] != "rec" and o[1] == len(aw) - 1 for o in ops):
             yield {**case, "awaits": aw[:-1]}
+    elif case["kind"] == "rchain":
+        if case["n"] > 1:
+            yield {**case, "n": case["n"] - 1}
     else:
         n = case["n"]
         for m in (n // 2, n - n // 4):
@@ -507,6 +544,8 @@ def histogram(case, obs):
         return f"program {'chain-' + case['shape'] if case.get('shape') else 'random'}"
     if case["kind"] == "iprog":
         return f"inline program {case['style']} awaits={5 * (len(case['awaits']) // 5)}+"
+    if case["kind"] == "rchain":
+        return "short chain with re-entrant self-adds (value/order oracle)"
     return f"{_shape(case)} n={case['n']}"
 
 
@@ -529,7 +568,7 @@ SPEC = Spec(
     rule="4 chain shapes (outer fired first, inner fired first, innermost pre-fired, innermost paused by the user) x "
          "{success, failure} x {plain Deferreds, instances of a trivial Deferred subclass, alternating}: as kernel programs for 9 lengths <= 34 (quick) / 43 lengths <= 90 (thorough) with the "
          "frame depth of every operation compared with the model, and with 100 ... 10 000 (thorough 100 000) Deferreds "
-         "against the 10-element baseline; chains of 3 000 (10 000) links also under defer.setDebugging(True); generators yielding generator / coroutine objects that complete synchronously; inlineCallbacks generators and coroutines awaiting 30 ... 20 000 (100 000) "
+         "against the 10-element baseline; chains of 100 ... 3 000 (100 000) links whose links re-entrantly add a callback to their own Deferred (depth oracle) and short ones against the reference interpreter (value / order oracle); chains of 3 000 (10 000) links also under defer.setDebugging(True); generators yielding generator / coroutine objects that complete synchronously; inlineCallbacks generators and coroutines awaiting 30 ... 20 000 (100 000) "
          "Deferreds, all pre-fired, every 7th fired later, or only the first one unfired (re-entry after a real suspension), last "
          "one failing or not; inline programs (generator / coroutine, 0-9 awaits pre-fired with values or failures or "
          "unfired, recorder, firings in any order incl. repeated ones; families 'all pre-fired' and 'first unfired then n "
